@@ -37,11 +37,14 @@ impl Check for C11 {
         tier.sz(16000, 160000)
     }
     fn required_counters(&self, _t: Tier) -> Vec<&'static str> {
-        vec!["renderings", "rules_compared", "name_spans_checked", "state_spans_checked", "escapes_rewritten", "renderings_with_header", "behaviour_inputs", "error_spans_checked"]
+        vec!["renderings", "rules_compared", "name_spans_checked", "state_spans_checked", "escapes_rewritten", "renderings_with_header", "behaviour_inputs", "error_spans_checked", "flags_set_on_both_sides", "flags_set_in_the_section_only"]
     }
     fn run_case(&self, seed: u64, idx: u64, tier: Tier) -> CaseOut {
         let mut out = CaseOut::new();
         let mut rng = Rng::derive(seed, "C11", idx, 0);
+        if idx % 40 == 0 {
+            builder_vs_section(&mut rng, idx, &mut out);
+        }
         let al = gen_alex(&mut rng);
         let ids: Vec<Option<u32>> = (0..al.rules.len()).map(|i| Some(i as u32)).collect();
         let rl = match RefLexer::new(&al, &mut rng, &ids) {
@@ -226,5 +229,99 @@ impl Check for C11 {
             }
         }
         out
+    }
+}
+
+/// "Flags given ... through the builder are the ones in force": the same boolean flags are set through
+/// CTLexerBuilder's methods and, with the OPPOSITE values, in the specification's %grmtools section; the
+/// documented rule is that the builder's value wins. The values in force are read from the generated
+/// module (`lex_flags.<flag> = Some(<value>)`).
+fn builder_vs_section(rng: &mut Rng, idx: u64, out: &mut CaseOut) {
+    use lrlex::CTLexerBuilder;
+    const FLAGS: [&str; 8] = ["case_insensitive", "dot_matches_new_line", "multi_line", "posix_escapes", "octal", "swap_greed", "ignore_whitespace", "unicode"];
+    let mut chosen: Vec<(usize, bool)> = vec![];
+    for i in 0..FLAGS.len() {
+        if rng.chance(1, 2) {
+            chosen.push((i, rng.chance(1, 2)));
+        }
+    }
+    // some flags only in the section, some only on the builder, the chosen ones on both sides
+    let mut section_only: Vec<(usize, bool)> = vec![];
+    for i in 0..FLAGS.len() {
+        if !chosen.iter().any(|(c, _)| *c == i) && rng.chance(1, 3) {
+            section_only.push((i, rng.chance(1, 2)));
+        }
+    }
+    let mut hdr: Vec<String> = vec![];
+    for (i, v) in &chosen {
+        hdr.push(format!("{}{}", if *v { "!" } else { "" }, FLAGS[*i])); // the opposite of the builder's value
+    }
+    for (i, v) in &section_only {
+        hdr.push(format!("{}{}", if *v { "" } else { "!" }, FLAGS[*i]));
+    }
+    let spec = format!("{}%%\n[a-z]+ 'ID'\n[0-9]+ 'NUM'\n[ \\t\\n]+ ;\n", if hdr.is_empty() { String::new() } else { format!("%grmtools{{{}}}\n", hdr.join(", ")) });
+    let dir = format!("{VERIF_DIR}/work/c11-{}-{idx}", std::process::id());
+    std::fs::remove_dir_all(&dir).ok();
+    if std::fs::create_dir_all(&dir).is_err() {
+        return;
+    }
+    let lp = format!("{dir}/f.l");
+    let lo = format!("{dir}/f.l.rs");
+    std::fs::write(&lp, &spec).ok();
+    let detail = || json!({"spec": spec, "builder_flags": chosen.iter().map(|(i, v)| json!([FLAGS[*i], v])).collect::<Vec<_>>()});
+    let chosen2 = chosen.clone();
+    let r = guarded(|| {
+        let mut lb = CTLexerBuilder::<DefaultLexerTypes<u32>>::new().lexer_path(&lp).output_path(&lo);
+        for (i, v) in &chosen2 {
+            lb = match FLAGS[*i] {
+                "case_insensitive" => lb.case_insensitive(*v),
+                "dot_matches_new_line" => lb.dot_matches_new_line(*v),
+                "multi_line" => lb.multi_line(*v),
+                "posix_escapes" => lb.posix_escapes(*v),
+                "octal" => lb.octal(*v),
+                "swap_greed" => lb.swap_greed(*v),
+                "ignore_whitespace" => lb.ignore_whitespace(*v),
+                _ => lb.unicode(*v),
+            };
+        }
+        lb.build().map(|_| ()).map_err(|e| e.to_string())
+    });
+    let module = std::fs::read_to_string(&lo);
+    std::fs::remove_dir_all(&dir).ok();
+    out.evals += 1;
+    match r {
+        Err(p) => out.violate("panic", &["ct-lexer-builder"], format!("CTLexerBuilder::build panicked: {p}"), detail()),
+        Ok(Err(e)) => out.violate("valid-spec-rejected", &["ct-lexer-builder"], format!("CTLexerBuilder refused a valid specification: {}", e.lines().find(|l| !l.trim().is_empty()).unwrap_or("")), detail()),
+        Ok(Ok(())) => {
+            let Ok(module) = module else {
+                out.violate("generated-file-missing", &["ct-lexer-builder"], "CTLexerBuilder::build succeeded but wrote no module".into(), detail());
+                return;
+            };
+            let flat: String = module.split_whitespace().collect::<Vec<_>>().join("");
+            out.count("builder_vs_section_builds", 1);
+            let value_of = |name: &str| -> Option<bool> {
+                let key = format!("lex_flags.{name}=::std::option::Option::");
+                let at = flat.find(&key)? + key.len();
+                if flat[at..].starts_with("Some(true)") {
+                    Some(true)
+                } else if flat[at..].starts_with("Some(false)") {
+                    Some(false)
+                } else {
+                    None
+                }
+            };
+            for (i, v) in &chosen {
+                out.count("flags_set_on_both_sides", 1);
+                if value_of(FLAGS[*i]) != Some(*v) {
+                    out.violate("flag-not-in-force", &["builder-vs-section"], format!("{} was set to {v} through the builder (and to {} in the %grmtools section); the generated lexer has {:?}", FLAGS[*i], !v, value_of(FLAGS[*i])), detail());
+                }
+            }
+            for (i, v) in &section_only {
+                out.count("flags_set_in_the_section_only", 1);
+                if value_of(FLAGS[*i]) != Some(*v) {
+                    out.violate("flag-not-in-force", &["section-only"], format!("{} = {v} in the %grmtools section only; the generated lexer has {:?}", FLAGS[*i], value_of(FLAGS[*i])), detail());
+                }
+            }
+        }
     }
 }
